@@ -127,6 +127,7 @@ func historyAlphabet(sig string, thorough bool) []Letter {
 		add(Letter{Sig: sig, Ramp: &Ramp{Kind: "names", N: 130, Uses: 1, Base: 0}})
 		add(one(sig, 1, 1, 40, 41, 40))
 		add(one(sig, 1, 1, 42, 43, 44))
+		add(one(sig, 1, 1, 47, 48, 49)) // exp-histogram twin of 41, NaN and signed-zero exemplars
 		add(one(sig, 9, 8, 45))
 		if thorough {
 			add(Letter{Sig: sig, Ramp: &Ramp{Kind: "attrs", N: 130, Uses: 1, Base: 2000}})
@@ -559,6 +560,16 @@ func framingPlan(tier string) []Unit {
 				for _, y := range a {
 					units = append(units, Unit{Opts: def, Mon: mon, Tag: "statsreset-" + sig, History: fixRamps([]Letter{x, {Op: "resetstats"}, y})})
 				}
+			}
+		}
+		// retained batches: everything is produced first and verified afterwards
+		for _, sig := range sigs() {
+			a := historyAlphabet(sig, false)
+			for _, h := range histories(a, 2) {
+				units = append(units, Unit{Opts: def, Mon: mon, Tag: "H2retained-" + sig, History: h, Pipelined: true})
+			}
+			for _, h := range histories(a[:5], 3) {
+				units = append(units, Unit{Opts: def, Mon: mon, Tag: "H3retained-" + sig, History: h, Pipelined: true})
 			}
 		}
 		// dictionary resets under an unchanged schema, overflows, upgrades
